@@ -12,6 +12,8 @@ CACHE=${VERIF_CACHE:-$V/.cache}
 mkdir -p $CACHE $V/bin
 key=$( { cd $REPO && find . -path ./.git -prune -o -type f \( -name '*.go' -o -name go.mod -o -name go.sum \) -print0 | sort -z | xargs -0 sha256sum; cd $V && find sim harness tools/instr -type f \( -name '*.go' -o -name go.mod \) -print0 | sort -z | xargs -0 sha256sum; } | sha256sum | cut -c1-24)
 C=$CACHE/$key
+# one builder at a time per cache (checks may be started in parallel on the same tree)
+exec 9>"$CACHE/.lock" && flock 9
 if [ -x $C/h ] && [ -x $C/h.race ] && [ -f $C/ok ]; then
   touch $C/ok
   echo $C
@@ -37,6 +39,12 @@ if [ "${VERIF_SKIP_NEUTRALITY:-0}" != 1 ]; then
 fi
 touch $C.tmp/ok
 rm -rf $C && mv $C.tmp $C
-# keep at most three cache entries
-ls -1dt $CACHE/*/ 2>/dev/null | tail -n +4 | xargs -r rm -rf
+# keep the three most recently *used* cache entries (ok is touched on every use); older ones go unless
+# they were used within the last 20 minutes (a check may still be running from them); never more than 12
+n=0
+for okf in $(ls -1t $CACHE/*/ok 2>/dev/null); do
+  n=$((n+1)); d=$(dirname $okf)
+  [ $n -le 3 ] && continue
+  if [ $n -gt 12 ] || [ -z "$(find $okf -mmin -20 2>/dev/null)" ]; then rm -rf $d; fi
+done
 echo $C
